@@ -27,7 +27,7 @@ LEVEL_TEXT = (
     "Every builder-operation sequence up to the stated length over the stated alphabet is generated (no sampling); "
     "after every operation the real builder is compared with a 60-line reference model, and every single-sink "
     "workflow is executed through execute_workflow under every completion order the dask scheduler loop admits "
-    "(all linear extensions for <= 6 tasks, bounded deviations above).  This is the right level because the "
+    "(all linear extensions for <= 6 tasks (7 in the thorough tier), bounded deviations above).  This is the right level because the "
     "property quantifies over all DAGs and schedules and its failure modes (argument permutation, wrong wiring "
     "rule, lost task) have witnesses of <= 4 tasks."
 )
@@ -68,11 +68,11 @@ BOUNDS = {
              "insert_context} <= 4 operations, <= 12 tasks; completion orders: all for <= 6 tasks, <= 1 deviation from "
              "lowest-label-first above; + 1-worker run, real 4-thread pool run, optimize.py+synchronous run per workflow; "
              "static value family: 22 values x 2 kinds x 2 positions",
-    "thorough": "compose <= 3 operations (<= 2 deviations); compose4: {add_task(C, preds<=2), replace_task(t, P), "
+    "thorough": "compose <= 3 operations (<= 2 deviations); compose4: {add_task(P|C, preds<=2), replace_task(t, P), "
                 "insert_workflow(join|fork, None|one task), wb+wf, insert_context} <= 4 operations, <= 12 tasks; add "
                 "<= 4 operations (4 kinds); add5: 2 kinds <= 5 operations; add3: pred lists <= 3, <= 5 operations; "
                 "deep <= 6 operations, <= 12 tasks; deep5: deep alphabet + menu 'one', wb+join, replace_task(first|last, "
-                "P), <= 5 operations; completion orders: all for <= 6 tasks, <= 2 deviations (compose, add*) or <= 1 "
+                "P), <= 5 operations; completion orders: all for <= 7 tasks, <= 2 deviations (compose, add*) or <= 1 "
                 "deviation (compose4, deep*) above; static value family as quick",
 }
 PREIMPORT = ("pharmpy.workflows", "pharmpy.workflows.dispatchers.local_dask", "dask.threaded", "dask.local",
@@ -101,7 +101,7 @@ PLANS = {
              max_preds=2, menu=_MENU4, plus_menu=("join", "fork"), depth=5, max_tasks=12, max_dev=1, shard_depth=2),
         dict(name="deep", ops=("ins_none", "plus", "add_sinks", "ctx"), kinds="C", rep_kinds="", max_preds=2,
              menu=("join", "fork", "chain"), plus_menu=("fork",), depth=6, max_tasks=12, max_dev=1, shard_depth=3),
-        dict(name="compose4", ops=("add", "rep", "ins", "plus", "ctx"), kinds="C", rep_kinds="P", max_preds=2,
+        dict(name="compose4", ops=("add", "rep", "ins", "plus", "ctx"), kinds="PC", rep_kinds="P", max_preds=2,
              ins_max_preds=1, menu=("join", "fork"), depth=4, max_tasks=12, max_dev=1, shard_depth=2),
         dict(name="compose", ops=_FULL, kinds="PC", rep_kinds="PC", max_preds=2, menu=_MENU4, depth=3, max_tasks=9,
              max_dev=2, shard_depth=2),
@@ -111,8 +111,11 @@ PLANS = {
              max_dev=2, shard_depth=2),
     ],
 }
-ALL_ORDERS_MAX_TASKS = 6
-ORDER_CAP = 800  # > 5! + slack; reaching it sets capped
+for _p in PLANS["quick"]:
+    _p["all_orders"] = 6    # every completion order for workflows of <= this many tasks
+for _p in PLANS["thorough"]:
+    _p["all_orders"] = 7
+ORDER_CAP = 800  # > 6! ; reaching it sets capped
 
 
 def plan_by_name(tier, name):
@@ -321,7 +324,7 @@ def check_state(ops, plan, light=False, execute=True):
     else:
         R.install()
         n = sr.ntasks
-        max_dev = None if n <= ALL_ORDERS_MAX_TASKS else plan["max_dev"]
+        max_dev = None if n <= plan["all_orders"] else plan["max_dev"]
         if light:
             max_dev = 0
 
